@@ -1214,6 +1214,18 @@ def try_perturbed(ctx, it, bp, kind):
             ctx.count("perturb_rejected")
             ctx.count("exc:" + type(e).__name__)
             out = "rejected"
+            if kind == "prefix" and isinstance(e, BadCertificateError):
+                # a cut-off message is a framing error at the TLS level
+                # whatever it carries: _getMsg must answer decode_error, and
+                # it answers BadCertificateError with bad_certificate
+                viol(ctx, {"clause": "truncation_reported_as_bad_certificate",
+                           "cls": keycls(it)},
+                     {"item": it.name, "input": bp, "perturb": kind},
+                     "%s: truncated encoding rejected with "
+                     "BadCertificateError (%s), not a decode error" % (
+                         it.name, str(e)[:100]))
+            elif kind == "prefix":
+                ctx.count("prefix_rejected_as_decode_error")
         else:
             ctx.count("exc:" + ec)
             wh = where(e)
